@@ -183,6 +183,63 @@ fn main() {
                 println!("append_failed=true");
             }
         }
+        // log_write start_offset record_len : append one record to a file that already holds start_offset bytes; dump what was written
+        "log_write" => {
+            let fs: std::sync::Arc<dyn raindb::fs::FileSystem> = std::sync::Arc::new(raindb::fs::InMemoryFileSystem::new());
+            let path = std::path::PathBuf::from("wal-1.log");
+            let p = num(a[1]) as usize;
+            let n = num(a[2]) as usize;
+            {
+                let mut f = fs.create_file(&path, false).unwrap();
+                f.append(&vec![0u8; p]).unwrap();
+            }
+            let mut w = v::VLogWriter::new(std::sync::Arc::clone(&fs), &path, true).unwrap();
+            let rec: Vec<u8> = (0..n).map(|i| (i % 251) as u8 + 1).collect();
+            let ok = w.append(&rec).is_ok();
+            println!("append_ok={}", ok);
+            let f = fs.open_file(&path).unwrap();
+            let len = f.len().unwrap() as usize;
+            let mut buf = vec![0u8; len];
+            f.read_from(&mut buf, 0).unwrap();
+            // parse the bytes after the prefix
+            let mut pos = p;
+            let mut trailer = 0usize;
+            if 32768 - (p % 32768) < 7 {
+                trailer = 32768 - (p % 32768);
+                pos += trailer;
+            }
+            let mut frs = vec![];
+            let mut parse_ok = buf[p..pos].iter().all(|b| *b == 0);
+            let mut got = 0usize;
+            while pos + 7 <= len {
+                let l = buf[pos + 4] as usize | ((buf[pos + 5] as usize) << 8);
+                let t = buf[pos + 6];
+                if pos + 7 + l > len {
+                    parse_ok = false;
+                    break;
+                }
+                for i in 0..l {
+                    if buf[pos + 7 + i] != rec[got + i] {
+                        parse_ok = false;
+                    }
+                }
+                if (pos % 32768) + 7 + l > 32768 {
+                    parse_ok = false;
+                }
+                got += l;
+                frs.push(format!("{}:{}", t, l));
+                pos += 7 + l;
+                if 32768 - (pos % 32768) < 7 && pos < len {
+                    pos += 32768 - (pos % 32768);
+                }
+            }
+            if pos != len || got != n {
+                parse_ok = false;
+            }
+            println!("trailer={}", trailer);
+            println!("fragments={}", frs.join(","));
+            println!("parse_ok={}", parse_ok);
+        }
         other => {
             eprintln!("unknown command {}", other);
             std::process::exit(2);
